@@ -106,3 +106,19 @@ Proof.
   destruct (N.leb_spec 8 (blen data)) as [H8|H8]; [apply C2; [exact H8|reflexivity]|lia].
 Qed.
 Print Assumptions C03_no_overread.
+
+(* ---- "reflection sets only values of the exact field / element type": for EVERY universe of Go struct declarations,
+   the value decodeValue hands back for a descriptor is assignable to the field it is Set into (or the element type of
+   the slice it is Appended to), so reflect.Value.Set / reflect.Append cannot panic on a type confusion ---- *)
+Require Import Fields Reflect.
+Theorem C03_stores_are_type_exact : forall tagmap named structs f d vt,
+  described tagmap named structs f d ->
+  produced (fd_typ d) vt ->
+  assignable named structs vt (field_elem named f) /\
+  (fd_slice d = true -> slice_elem named (rf_type f) = Some (field_elem named f)).
+Proof.
+  intros tagmap named structs f d vt H Hp. split.
+  - exact (decode_store_assignable tagmap named structs f d vt H Hp).
+  - exact (decode_slice_target tagmap named structs f d H).
+Qed.
+Print Assumptions C03_stores_are_type_exact.
